@@ -267,6 +267,52 @@ class Inj:
             return True
     return False
 
+  def inj_far_net(s, want=None):
+    """a connection written in a component H at least two levels above one of the two hosts: cousins (hosts at equal depth
+    under different children of H), uncle/nephew, grandparent/grandchild, and one grandchild reached twice (its OutPort to
+    its own InPort / Wire); a driven end point feeds a free one, whatever the port kinds"""
+    rng, d = s.rng, s.d
+    hs = [p for p in sorted(d.insts) if any(k.children for k in d.insts[p].children)]
+    if not hs: return False
+    drivers = [e for e in s.b.writer_eps + s.readers() + [e for h, st, e in s.blk_writes()] if isinstance(e, EP)]
+    for _ in range(30):
+      H = d.insts[rng.choice(hs)]
+      sub = {H.path: 0}
+      for k in H.children:
+        sub[k.path] = 1
+        for g in k.children: sub[g.path] = 2
+      us = [e for e in drivers if e.sig.inst in sub]
+      if not us: continue
+      rel = want or rng.choice(['cousins', 'cousins', 'uncle', 'grand', 'same', 'any'])
+      u = rng.choice(us)
+      du = sub[u.sig.inst]
+      def ok_host(p):
+        dv = sub[p]
+        if max(du, dv) < 2: return False
+        if rel == 'cousins': return du == 2 and dv == 2 and p[:-1] != u.sig.inst[:-1]
+        if rel == 'uncle':   return {du, dv} == {1, 2} and (p[:-1] != u.sig.inst if dv == 2 else u.sig.inst[:-1] != p)
+        if rel == 'grand':   return {du, dv} == {0, 2}
+        if rel == 'same':    return p == u.sig.inst
+        return True
+      hosts = [p for p in sub if ok_host(p)]
+      if rel == 'cousins':
+        outs = [e for e in us if sub[e.sig.inst] == 2 and e.sig.kind == 'out']
+        if outs and rng.random() < 0.7:
+          u = rng.choice(outs); du = 2; hosts = [p for p in sub if ok_host(p)]
+      rng.shuffle(hosts)
+      for p in hosts[:4]:
+        xs = list(d.insts[p].sigs); rng.shuffle(xs)
+        if rel == 'cousins' and u.sig.kind == 'out' and rng.random() < 0.7: xs = [x for x in xs if x.kind == 'in'] or xs
+        for x in xs[:5]:
+          vs = [v for v in fits(x, u.T, rng) if s.b.free(v) and v.full != u.full]
+          if vs:
+            v = rng.choice(vs)
+            d.stmts[H.path].append(('conn', u, v) if rng.random() < 0.5 else ('conn', v, u))
+            s.b.drv[v.sig.root] = s.b.drv.get(v.sig.root, 0) | v.mask
+            d.notes['far'] = (rel, u.sig.kind, v.sig.kind, u.sig.inst == v.sig.inst)
+            return True
+    return False
+
   def inj_const_port(s, fanout=False):
     """a constant written in component H drives some free Bits end point in H, in a child of H or in a grandchild of H,
     whatever its port kind: every host relation x port kind of the port-direction rule with a constant as the driver"""
@@ -392,6 +438,11 @@ INJECTIONS = [
   ('port-blk:write-child-in(legal)', 2, lambda j: j.inj_port_blk('write-child-in')),
   ('port-blk:write-grandchild-in', 2, lambda j: j.inj_port_blk('write-grandchild-in')),
   ('port-net:any', 10, lambda j: j.inj_port_net()),
+  ('far-net:cousins', 5, lambda j: j.inj_far_net('cousins')),
+  ('far-net:uncle-nephew', 2, lambda j: j.inj_far_net('uncle')),
+  ('far-net:grandparent-grandchild', 2, lambda j: j.inj_far_net('grand')),
+  ('far-net:same-component', 3, lambda j: j.inj_far_net('same')),
+  ('far-net:any', 3, lambda j: j.inj_far_net()),
   ('const-port:any', 8, lambda j: j.inj_const_port()),
   ('const-port:any+fanout', 4, lambda j: j.inj_const_port(fanout=True)),
   ('loopback:inside', 3, lambda j: j.inj_loopback(False)),
@@ -408,7 +459,7 @@ INJECTIONS = [
 ]
 
 def gen_design(rng, name, inj):
-  d = ec.gen_hierarchy(rng, name, rich=False)
+  d = ec.gen_hierarchy(rng, name, rich=False, deep=inj.startswith('far-net'))
   b = Builder9(rng, d)
   d.mode = 'legal'
   b.add_blocks('parent+field' if inj.startswith('same-blk:parent+field') else None)
@@ -505,6 +556,9 @@ def aug_assign(d):
 def pattern_key(d, obs, model, unstable=False):
   """stable keys of the deviations that are understood (one root cause each); None = not a recognised pattern"""
   if aug_assign(d) and obs == 99: return 'C09:augmented-assignment-raises-TypeError'
+  far = d.notes.get('far')
+  if far and far[3] and far[1] == 'out' and far[2] == 'in' and obs == 99 and model == 3:
+    return 'C09:far-loopback-raises-AssertionError'          # OutPort -> InPort of one component, connected two or more levels above it
   if sameblk_sibling_overlap(d) and obs == 1 and model == 0: return 'C09:same-block-overlapping-slices'
   if 'same-net-overlap' in d.features and obs == 0 and model == 1: return 'C09:same-net-overlapping-slices'
   if sameblk_parent_child(d) and (unstable or (obs, model) in ((2, 0), (0, 1), (1, 0))): return 'C09:same-block-parent-and-child-write'
